@@ -96,10 +96,12 @@ def verify_function(reg, qualname, opts=None) -> FunctionReport:
             st.ghost["stdout"] = (fresh("out_n0", smt.I), fresh("out_arr0", smt.ArrIV))
             pre.ghost["stdout"] = st.ghost["stdout"]
             st.assume(st.ghost["stdout"][0] >= 0)
-        if not c.modifies and not os.environ.get('PYVC_NOFREEZE'):
-            # empty frame: the container parameters keep their entry contents for the whole call
+        if not os.environ.get('PYVC_NOFREEZE'):
+            # the container parameters (and what the entry heap stores in them) existed at entry: with an empty frame they
+            # keep their entry contents for the whole call; with a frame, reads at them at least skip the stores made at
+            # objects allocated since
             refs = {str(z3.simplify(get_ref(v.t))) for v in params.values() if isinstance(v, SV) and v.ty not in ("none", "bool", "int", "float", "str")}
-            st.heap.frozen = Frozen(dict(st.heap.arr), refs)
+            st.heap.frozen = Frozen(dict(st.heap.arr), refs, freeze=not c.modifies)
         for r in c.requires + c.defs:
             st.assume(spec_bool(eng, r, st))
         from .values import RefSet
@@ -146,7 +148,13 @@ def verify_function(reg, qualname, opts=None) -> FunctionReport:
                            z3.And(is_ref(res.t), get_ref(res.t) >= eng.entry_alloc), "post")
             for k, e in enumerate(c.ensures):
                 eng.cur_line = None
-                eng.oblige(f"{qualname}.post.{k}#p{pidx}", s, spec_bool(eng, e, s, result=res), "post")
+                # parameter names in a postcondition denote the values PASSED (that is how callers use the contract), not
+                # whatever the body has assigned to the parameter since
+                ps = State(Env(dict(params)), s.heap, s.pc, pre, s.ghost)
+                ps.branches = s.branches
+                g = spec_bool(eng, e, ps, result=res)
+                s.pc = ps.pc
+                eng.oblige(f"{qualname}.post.{k}#p{pidx}", s, g, "post")
             for exc_name, cond in c.raises.items():
                 if cond is not None:
                     pre_view = State(s.env, pre.heap, s.pc, None, pre.ghost)
